@@ -36,10 +36,12 @@ func (p Pair) String() string {
 // Job is a request to a worker: the whole pair, or exactly one case of it (verification re-runs, replay).
 type Job struct {
 	Pair
-	Kind  string `json:"kind"`            // pair | crash | fail | lint
-	K     int    `json:"k"`               // crash: death just before counted call K (K = number of calls: after the last one); fail/lint: call K
-	Errno string `json:"errno,omitempty"` // fail: ENOSPC | EIO
-	C10   bool   `json:"c10,omitempty"`   // only the revision-counter crash clause (C10crash): crash states only
+	Kind   string `json:"kind"`             // pair | crash | fail | lint | cont
+	K      int    `json:"k"`                // crash: death just before counted call K (K = number of calls: after the last one); fail/lint: call K
+	Errno  string `json:"errno,omitempty"`  // fail: ENOSPC | EIO
+	C10    bool   `json:"c10,omitempty"`    // only the revision-counter crash clause (C10crash): crash states only
+	Script string `json:"script,omitempty"` // cont: the continuation script run on crash state K
+	Quick  bool   `json:"quick,omitempty"`  // pair: quick tier (continuations restricted, see contOp/scripts)
 }
 
 // Call is one counted file-system call of the operation (a line of the tracer log).
@@ -102,6 +104,7 @@ type Finding struct {
 	Kind      string `json:"kind"`
 	K         int    `json:"k"`
 	Errno     string `json:"errno,omitempty"`
+	Script    string `json:"script,omitempty"`
 	Oracle    string `json:"oracle"`
 	Signature string `json:"signature"`
 	What      string `json:"what"`
@@ -110,25 +113,27 @@ type Finding struct {
 
 // Result is what a worker reports about a job.
 type Result struct {
-	Pair         Pair      `json:"pair"`
-	Calls        int       `json:"calls"`
-	CrashStates  int       `json:"crash_states"`    // crash states judged (death before each call, and after the last)
-	CrashRecover int       `json:"crash_recovered"` // of those, distinct directory contents actually reopened (equal contents share the verdict)
-	FailRuns     int       `json:"fail_runs"`
-	LintCalls    int       `json:"lint_calls"`
-	Recoveries   int       `json:"recoveries"`
-	RevertChecks int       `json:"revert_checks"`
-	VictimRuns   int       `json:"victim_runs"`
-	C10Points    int       `json:"c10_points"`
-	C10Bad       int       `json:"c10_bad"`
-	OtherThread  int       `json:"other_thread_calls"`
-	OtherCalls   []string  `json:"other_thread_detail,omitempty"`
-	Findings     []Finding `json:"findings,omitempty"`
-	HarnessErr   string    `json:"harness_err,omitempty"`
-	Trace        []string  `json:"trace,omitempty"`
-	OpErr        string    `json:"op_err,omitempty"`
-	Verbose      []string  `json:"verbose,omitempty"`
-	WallMs       int64     `json:"wall_ms"`
+	Pair          Pair      `json:"pair"`
+	Calls         int       `json:"calls"`
+	CrashStates   int       `json:"crash_states"`    // crash states judged (death before each call, and after the last)
+	CrashRecover  int       `json:"crash_recovered"` // of those, distinct directory contents actually reopened (equal contents share the verdict)
+	FailRuns      int       `json:"fail_runs"`
+	Continuations int       `json:"continuations"`    // continuation scripts run on crash states
+	ContStates    int       `json:"continued_states"` // distinct accepted crash states that were continued
+	LintCalls     int       `json:"lint_calls"`
+	Recoveries    int       `json:"recoveries"`
+	RevertChecks  int       `json:"revert_checks"`
+	VictimRuns    int       `json:"victim_runs"`
+	C10Points     int       `json:"c10_points"`
+	C10Bad        int       `json:"c10_bad"`
+	OtherThread   int       `json:"other_thread_calls"`
+	OtherCalls    []string  `json:"other_thread_detail,omitempty"`
+	Findings      []Finding `json:"findings,omitempty"`
+	HarnessErr    string    `json:"harness_err,omitempty"`
+	Trace         []string  `json:"trace,omitempty"`
+	OpErr         string    `json:"op_err,omitempty"`
+	Verbose       []string  `json:"verbose,omitempty"`
+	WallMs        int64     `json:"wall_ms"`
 }
 
 var (
@@ -572,6 +577,13 @@ func RunJob(job *Job, verbose bool) (res *Result) {
 		}
 	case "lint":
 		x.lint(job.K)
+	case "cont":
+		if job.K < 0 || job.K > n {
+			return herr("crash index %d out of range 0..%d", job.K, n)
+		}
+		if err := x.contOne(job.K, job.Script); err != nil {
+			return herr("%v", err)
+		}
 	default:
 		return herr("unknown job kind %q", job.Kind)
 	}
@@ -639,9 +651,22 @@ func (x *jobCtx) crashAll(judge func(int, string) *verdict) error {
 		if known[dg] {
 			v = seen[dg]
 		} else {
+			cont := !x.job.C10 && contOp(x.job.Op, x.job.Quick)
+			pristine := d + ".p"
+			if cont {
+				if err := copyDir(d, pristine); err != nil {
+					return err
+				}
+			}
 			v = judge(k, d)
 			known[dg], seen[dg] = true, v
 			x.res.CrashRecover++
+			if cont && v == nil {
+				if err := x.continuations(k, pristine, x.e.lastRC, x.job.Quick, ""); err != nil {
+					return err
+				}
+			}
+			os.RemoveAll(pristine)
 		}
 		os.RemoveAll(d)
 		x.c10(v)
@@ -685,6 +710,32 @@ func (x *jobCtx) c10(v *verdict) {
 			x.res.C10Bad++
 		}
 	}
+}
+
+// contOne: one continuation script on crash state k (verification re-runs, replay).
+func (x *jobCtx) contOne(k int, scriptID string) error {
+	states, err := x.snapRun()
+	if err != nil {
+		return err
+	}
+	defer os.RemoveAll(states)
+	d := x.stateDir(states, k)
+	if x.verb {
+		x.say("crash state %d (%s):", k, x.crashWhat(k))
+		x.listDir(d)
+	}
+	pristine := d + ".p"
+	if err := copyDir(d, pristine); err != nil {
+		return err
+	}
+	defer os.RemoveAll(pristine)
+	x.res.CrashStates++
+	x.res.CrashRecover++
+	if v := x.e.check(d, "crash", &x.st); v != nil {
+		x.finding("crash", k, "", v, x.crashWhat(k))
+		return nil
+	}
+	return x.continuations(k, pristine, x.e.lastRC, false, scriptID)
 }
 
 func (x *jobCtx) listDir(d string) {
